@@ -102,7 +102,7 @@ def handleRand : OpHandler := fun st op args =>
         if rg.pos > randBudget then some s!"big n={rg.pos}" else
         let w := outBytes (writeTL1 d (fuel + 1) ty false [] v)
         let w2 := if hasTL2Code d ty then "ok" else "n/a"
-        some s!"ok n={rg.pos} w1b={w} res={res} w2={w2} wj=ok again=same dirty=same"
+        some s!"ok n={rg.pos} w1b={w} res={res} d={rg.cur} w2={w2} wj=ok again=same dirty=same"
     | _, _, _ => some "bad-op"
   | "rgp", [_sid, seed, count] =>
     match seed.toNat?, count.toNat? with
